@@ -357,6 +357,7 @@ Definition ex (l : list seg) : list Z := concat (map ex1 l).
 (** [c_hint]: findings that live below the byte level cannot be replayed by this model; the
     harness recognises their signature on the Go side and passes the finding's index here:
       7 = the modifier's prefix is the identity hash and a call failed with ErrDigestTooLarge
+          (or with merkledag's "failed to fetch all nodes" that it turns into while fetching)
       8 = the initial root is a dag-pb leaf holding file data itself and the history grows the file
     (0 = no signature).  It is only consulted when the specification check fails.
     [c_pref]: indices of the findings currently listed as known; when the observations match
